@@ -77,7 +77,16 @@ def verify_function(index: SourceIndex, c: Contract, registry: Optional[dict] = 
                     return None
                 from .interp import Frame
                 fr = Frame(c.target, fn, mi, ci, c)
-                fr.locals.update(a)
+                fr.locals.update({k: v for k, v in a.items() if not k.startswith("@")})
+                # parameters the contract does not supply take their declared defaults
+                fa = fn.args
+                plist = fa.posonlyargs + fa.args
+                for p_, d_ in zip(plist[len(plist) - len(fa.defaults):], fa.defaults):
+                    if p_.arg not in fr.locals:
+                        fr.locals[p_.arg] = it.ev(d_, fr)
+                for p_, d_ in zip(fa.kwonlyargs, fa.kw_defaults):
+                    if p_.arg not in fr.locals and d_ is not None:
+                        fr.locals[p_.arg] = it.ev(d_, fr)
                 fr.args_ns = a
                 cx.ghost["pre_args"] = a
                 try:
